@@ -163,6 +163,7 @@ class HResult:
         self.ob_ids = {}
         self.funcs = set()
         self.aborted = 0
+        self.wall_s = 0.0
 
     def to_dict(self):
         d = dict(self.__dict__)
